@@ -1135,6 +1135,22 @@ pub mod rare {
             BasicTokenResolver::from_text_lines(&b"0x10000 name\n"[..]).is_err(), BasicTokenResolver::from_text_lines(std::io::BufReader::new(Failing)).is_err(),
             BasicTokenResolver::from_text_lines(&b"0x10 a\n0x11 b"[..]).is_ok()];
         if bad.iter().any(|b| !*b) { obs.violation("c04-resolver-text-lines", &case(), &format!("{:?}", bad)); }
+        // every id VALUE through the text-line loader, in the spellings a token file uses (`0x` + lower / upper hex, with
+        // and without zero padding): boundary ids (0, 1, 0x000f, 0x00ff, 0x0100, 0x0fff, 0x1000, 0xfffe, 0xffff), ids that
+        // consist of zeros and `x`-adjacent digits only, and a pseudo-random sample; each must resolve to its own name
+        {
+            let mut ids: Vec<u16> = vec![0, 1, 0x000f, 0x0010, 0x00ff, 0x0100, 0x0fff, 0x1000, 0x7fff, 0x8000, 0xfffe, 0xffff, 0x0a0b, 0xa000, 0x000a];
+            let mut z = 0x9E37u32;
+            for _ in 0..40 { z = z.wrapping_mul(1664525).wrapping_add(1013904223); ids.push((z >> 8) as u16); }
+            ids.sort(); ids.dedup();
+            for style in 0..4 {
+                let txt: String = ids.iter().map(|i| match style { 0 => format!("0x{:x} n{}\n", i, i), 1 => format!("0x{:04x} n{}\n", i, i), 2 => format!("0x{:X} n{}\n", i, i), _ => format!("0x{:04X} n{}\r\n", i, i) }).collect();
+                match BasicTokenResolver::from_text_lines(txt.as_bytes()) {
+                    Err(e) => obs.violation("c04-resolver-text-lines", &case(), &format!("a token table with ids {:x?}.. in spelling style {} is refused: {}", &ids[..3], style, e)),
+                    Ok(r) => { for i in &ids { if TokenResolver::resolve(&r, *i) != Some(format!("n{}", i).as_str()) { obs.violation("c04-resolver-text-lines", &case(), &format!("id 0x{:04x} (style {}) resolves to {:?}", i, style, TokenResolver::resolve(&r, *i))); break; } } }
+                }
+            }
+        }
         // the whole document as a map (duplicate keys collapse; keys only)
         {
             let b = || { let mut b = BinaryDeserializer::builder_flavor(VFlavor); b.on_failed_resolve(FailedResolveStrategy::Stringify); b };
